@@ -56,7 +56,7 @@ def resolve_unwind(cfile, rules, default):
     return uw
 
 def cxx_ob(pid, oid, wrapper, entry, what, bounds, functions, unwind=2, unwindset=None, defines=("NDEBUG",), havoc=(),
-           weight_gb=3, timeout=900, stubs=(), extra=(), known=None, object_bits=None, noop_re=(), replace=(), clang_extra=()):
+           weight_gb=3, timeout=900, stubs=(), extra=(), known=None, object_bits=12, noop_re=(), replace=(), clang_extra=()):
     """One CBMC query on one extern "C" harness function of a wrapper TU."""
     full = "%s.%s" % (pid, oid)
     def build():
